@@ -69,55 +69,57 @@ Definition onset_t1 (c : s2p_cfg) (n : snote) : flt := (n_end n + c_delay_ms c /
 
 Lemma onset_frames_window c n : c_mode c = 0 -> gt0 (c_occ c) = false ->
   onset_frames c n =
-  (Z.max 0 (sframe (c_fps c) (onset_t0 c n) - c_window c),
-   Z.min (rows_of c) (sframe (c_fps c) (onset_t0 c n) + c_window c + 1)).
+  (Z.max 0 (Z.max 0 (sframe (c_fps c) (onset_t0 c n) - c_window c)),
+   Z.max 0 (Z.min (rows_of c) (sframe (c_fps c) (onset_t0 c n) + c_window c + 1))).
 Proof.
-  intros Hm Hocc. unfold onset_frames. rewrite Hm. cbn [Z.eqb]. cbv zeta.
+  intros Hm Hocc. unfold onset_frames, onset_frames_raw. rewrite Hm. cbn [Z.eqb]. cbv zeta.
   unfold fft. rewrite (fft_no_occupancy _ _ _ _ Hocc). reflexivity.
 Qed.
 
 Lemma onset_frames_length c n : c_mode c <> 0 -> gt0 (c_occ c) = false ->
   onset_frames c n =
-  (sframe (c_fps c) (onset_t0 c n),
-   Z.max (sframe (c_fps c) (onset_t0 c n) + 1)
-         (eframe (c_fps c) (fmin (onset_t1 c n) (onset_t0 c n + c_onset_len_ms c / f1000)%float))).
+  (Z.max 0 (sframe (c_fps c) (onset_t0 c n)),
+   Z.max 0 (Z.max (sframe (c_fps c) (onset_t0 c n) + 1)
+         (eframe (c_fps c) (fmin (onset_t1 c n) (onset_t0 c n + c_onset_len_ms c / f1000)%float)))).
 Proof.
-  intros Hm Hocc. unfold onset_frames. destruct (c_mode c =? 0) eqn:E; [apply Z.eqb_eq in E; contradiction|].
+  intros Hm Hocc. unfold onset_frames, onset_frames_raw. destruct (c_mode c =? 0) eqn:E; [apply Z.eqb_eq in E; contradiction|].
   cbv zeta. unfold fft. rewrite (fft_no_occupancy _ _ _ _ Hocc). reflexivity.
 Qed.
 
+Lemma onset_frames_nonneg c n : 0 <= fst (onset_frames c n) /\ 0 <= snd (onset_frames c n).
+Proof. unfold onset_frames. cbn [fst snd]. lia. Qed.
+
 Theorem onset_cells_proof c notes :
   0 <= rows_of c -> 0 <= cols_of c ->
-  (forall n, In n notes -> in_range c n = true -> 0 <= fst (onset_frames c n) /\ 0 <= snd (onset_frames c n)) ->
   forall i p, 0 <= i -> 0 <= p ->
   (mget (onset_roll c notes) i p = true <->
    (i < rows_of c /\
     exists n, In n notes /\ in_range c n = true /\ p = n_pitch n - c_min_pitch c /\
               fst (onset_frames c n) <= i < snd (onset_frames c n))).
-Proof. intros H1 H2 H3. rewrite onset_roll_bool. apply (bool_roll_cells c (onset_frames c) notes H1 H2 H3). Qed.
+Proof.
+  intros H1 H2. rewrite onset_roll_bool.
+  apply (bool_roll_cells c (onset_frames c) notes H1 H2 (fun n _ _ => onset_frames_nonneg c n)).
+Qed.
 
 (* 'window' mode: exactly [w - window, w + window] intersected with the roll, w = int((start + delay/1000) * fps) *)
 Theorem onset_window_proof c notes :
   c_mode c = 0 -> gt0 (c_occ c) = false -> 0 <= rows_of c -> 0 <= cols_of c ->
-  (forall n, In n notes -> in_range c n = true -> 0 <= sframe (c_fps c) (onset_t0 c n) + c_window c + 1) ->
   forall i p, 0 <= i -> 0 <= p ->
   (mget (onset_roll c notes) i p = true <->
    (i < rows_of c /\
     exists n, In n notes /\ in_range c n = true /\ p = n_pitch n - c_min_pitch c /\
               sframe (c_fps c) (onset_t0 c n) - c_window c <= i <= sframe (c_fps c) (onset_t0 c n) + c_window c)).
 Proof.
-  intros Hm Hocc Hrows Hcols Hw i p Hi Hp.
-  rewrite (onset_cells_proof c notes Hrows Hcols); [| |assumption|assumption].
-  - split; intros (HiR & n & Hn & Hr & Hpn & Hspan); (split; [assumption|]); exists n;
-      (split; [assumption|]); (split; [assumption|]); (split; [assumption|]);
-      rewrite (onset_frames_window c n Hm Hocc) in *; cbn [fst snd] in *; lia.
-  - intros n Hn Hr. rewrite (onset_frames_window c n Hm Hocc). cbn [fst snd]. pose proof (Hw n Hn Hr). lia.
+  intros Hm Hocc Hrows Hcols i p Hi Hp.
+  rewrite (onset_cells_proof c notes Hrows Hcols i p Hi Hp).
+  split; intros (HiR & n & Hn & Hr & Hpn & Hspan); (split; [assumption|]); exists n;
+    (split; [assumption|]); (split; [assumption|]); (split; [assumption|]);
+    rewrite (onset_frames_window c n Hm Hocc) in *; cbn [fst snd] in *; lia.
 Qed.
 
 (* 'length_ms' mode: [int(t0*fps), max(+1, ceil(min(t1, t0 + length/1000) * fps))) intersected with the roll *)
 Theorem onset_length_proof c notes :
   c_mode c <> 0 -> gt0 (c_occ c) = false -> 0 <= rows_of c -> 0 <= cols_of c ->
-  (forall n, In n notes -> in_range c n = true -> 0 <= sframe (c_fps c) (onset_t0 c n)) ->
   forall i p, 0 <= i -> 0 <= p ->
   (mget (onset_roll c notes) i p = true <->
    (i < rows_of c /\
@@ -126,12 +128,11 @@ Theorem onset_length_proof c notes :
               Z.max (sframe (c_fps c) (onset_t0 c n) + 1)
                     (eframe (c_fps c) (fmin (onset_t1 c n) (onset_t0 c n + c_onset_len_ms c / f1000)%float)))).
 Proof.
-  intros Hm Hocc Hrows Hcols Hw i p Hi Hp.
-  rewrite (onset_cells_proof c notes Hrows Hcols); [| |assumption|assumption].
-  - split; intros (HiR & n & Hn & Hr & Hpn & Hspan); (split; [assumption|]); exists n;
-      (split; [assumption|]); (split; [assumption|]); (split; [assumption|]);
-      rewrite (onset_frames_length c n Hm Hocc) in *; cbn [fst snd] in *; lia.
-  - intros n Hn Hr. rewrite (onset_frames_length c n Hm Hocc). cbn [fst snd]. pose proof (Hw n Hn Hr). lia.
+  intros Hm Hocc Hrows Hcols i p Hi Hp.
+  rewrite (onset_cells_proof c notes Hrows Hcols i p Hi Hp).
+  split; intros (HiR & n & Hn & Hr & Hpn & Hspan); (split; [assumption|]); exists n;
+    (split; [assumption|]); (split; [assumption|]); (split; [assumption|]);
+    rewrite (onset_frames_length c n Hm Hocc) in *; cbn [fst snd] in *; lia.
 Qed.
 
 (** ** Offsets *)
@@ -363,7 +364,6 @@ Qed.
 Theorem weights_cells_proof c notes :
   0 <= rows_of c -> 0 <= cols_of c ->
   (forall n, In n notes -> in_range c n = true ->
-     0 <= f_on_s (note_frames c n) /\ 0 <= f_on_e (note_frames c n) /\
      0 <= f_start (note_frames c n) /\ 0 <= f_end (note_frames c n)) ->
   forall i p, 0 <= i -> 0 <= p ->
   zget (weights_roll c notes) i p =
@@ -379,7 +379,10 @@ Proof.
               (flat_map (weight_ops c (Z.to_nat (rows_of c))) (painted_notes c notes)) _ _ _ Hb) as [_ Hres].
   { intros o Ho. apply in_flat_map in Ho. destruct Ho as (n & Hn & Ho).
     apply painted_notes_In in Hn. destruct Hn as [Hn Hr].
-    destruct (Hnonneg n Hn Hr) as (H1 & H2 & H3 & H4). pose proof (in_range_col c n Hr) as Hcol.
+    destruct (Hnonneg n Hn Hr) as (H3 & H4). pose proof (in_range_col c n Hr) as Hcol.
+    destruct (onset_frames_nonneg c n) as [H1 H2].
+    change (fst (onset_frames c n)) with (f_on_s (note_frames c n)) in H1.
+    change (snd (onset_frames c n)) with (f_on_e (note_frames c n)) in H2.
     unfold weight_ops in Ho. cbv zeta in Ho. apply in_app_or in Ho.
     unfold op_s, op_e, op_col.
     destruct Ho as [[<-|[<-|[]]]|Ho]; cbn [fst snd]; unfold col_of; try lia.
@@ -396,3 +399,25 @@ Example weights_single_note_demo :
   let n := {| n_pitch := 60; n_vel := 80; n_start := ftime (fz 16) 2; n_end := ftime (fz 16) 8 |} in
   map (fun i => zget (weights_roll c [n]) i 0) [0; 1; 2; 3; 4; 5; 6; 7; 8; 9] = [0; 1; 1; 1; 1; 2; 3; 4; 0; 0].
 Proof. vm_compute. reflexivity. Qed.
+
+(** Before repo commit 05c4d11 the onset frames were used unclamped: with a note at time 0, 100 fps,
+    onset_delay_ms = -50 and window 1 the end frame is -3 and numpy's slice [0:-3] marks the onset
+    in frames 0 .. rows-4, nowhere near the note (and the weights assignment then raised). *)
+Definition early_cfg : s2p_cfg :=
+  {| c_fps := fz 100; c_occ := zero; c_min_pitch := 60; c_max_pitch := 60; c_max_vel := 127;
+     c_blank := false; c_window := 1; c_onset_len_ms := zero; c_offset_len_ms := zero;
+     c_mode := 0; c_delay_ms := (- fz 50)%float; c_overlap := true; c_total := ftime (fz 100) 30 |}.
+Definition early_note : snote :=
+  {| n_pitch := 60; n_vel := 80; n_start := zero; n_end := ftime (fz 100) 10 |}.
+
+Lemma unclamped_onset_refuted_proof :
+  onset_frames_raw early_cfg early_note = (0, -3) /\
+  mget (paint (blank (rows_of early_cfg) 1 false) 0 (-3) 0 (fun _ => true)) 20 0 = true /\
+  onset_frames early_cfg early_note = (0, 0) /\
+  s2p early_cfg [early_note] [] <> inl 1 /\
+  forall i, In i [0; 1; 5; 20; 27; 30] -> mget (onset_roll early_cfg [early_note]) i 0 = false.
+Proof.
+  split; [vm_compute; reflexivity|]. split; [vm_compute; reflexivity|]. split; [vm_compute; reflexivity|].
+  split; [vm_compute; discriminate|].
+  intros i Hi. cbn in Hi. repeat (destruct Hi as [<-|Hi]; [vm_compute; reflexivity|]). destruct Hi.
+Qed.
